@@ -86,6 +86,52 @@ theorem C17_series_exact (l : List Elem) : (seriesFromValues l).values = some (l
         simp only [hany', Bool.false_eq_true, ↓reduceIte]
         exact int_values hany'
 
+theorem firstNonNull_mem {l : List Elem} {e : Elem} (hf : firstNonNull l = some e) : e ∈ l := by
+  induction l with
+  | nil => simp [firstNonNull] at hf
+  | cons a l ih =>
+    unfold firstNonNull at hf
+    by_cases ha : a.isNone = true
+    · rw [if_pos ha] at hf; exact List.mem_cons_of_mem _ (ih hf)
+    · rw [if_neg ha] at hf; cases hf; exact List.mem_cons_self ..
+
+/-- **C17_series_closed_form**: what `series_from_values` returns, in one line - the dtype depends on the numbers' kinds
+only (Null without any number, Float64 as soon as one element is a float, an integer dtype otherwise), not on which
+element comes first and not on whether the numbers are Python or numpy scalars; the values are never truncated. -/
+theorem C17_series_closed_form (l : List Elem) :
+    seriesFromValues l =
+      if firstNonNull l = Option.none then .null l.length
+      else if l.any Elem.isFloat = true then .float (l.map Elem.value)
+      else .int (l.map Elem.intValue) := by
+  cases hf : firstNonNull l with
+  | none => simp [seriesFromValues, strictSeries, hf]
+  | some e =>
+    simp only [reduceCtorEq, ↓reduceIte]
+    by_cases hany : l.any Elem.isFloat = true
+    · simp only [hany, ↓reduceIte]
+      by_cases he : e.isFloat = true
+      · simp [seriesFromValues, strictSeries, hf, he]
+      · have hstrict : strictSeries l = .typeError := by simp [strictSeries, hf, he, hany]
+        have hflt : (l.map unwrap).any Elem.isFloat = true := by rw [any_isFloat_map_unwrap]; exact hany
+        have hvals : (l.map unwrap).map Elem.value = l.map Elem.value := by
+          rw [List.map_map]; exact List.map_congr_left (fun a _ => value_unwrap a)
+        unfold seriesFromValues
+        rw [hstrict]
+        simp only []
+        unfold nonStrictSeries
+        rw [firstNonNull_map_unwrap, hf]
+        cases e with
+        | none => simp [unwrap, hflt, hvals]
+        | pyInt n => simp [unwrap, hflt, hvals]
+        | pyFloat q => simp [unwrap, hflt, hvals]
+        | npInt n => simp [unwrap, hflt, hvals]
+        | npFloat q => simp [unwrap, hflt, hvals]
+    · have hany' : l.any Elem.isFloat = false := by simpa using hany
+      have he : e.isFloat = false := by
+        have := List.any_eq_false.mp hany' e (firstNonNull_mem hf)
+        simpa using this
+      simp [seriesFromValues, strictSeries, hf, he, hany']
+
 /-- the call never lets polars' `TypeError` escape -/
 theorem C17_series_never_refuses (l : List Elem) : seriesFromValues l ≠ .typeError := by
   intro h
